@@ -167,6 +167,37 @@ theorem key_sizes (C : Crypto) (b : Bytes) (h : (C.hash b).length = 64) :
     (keyFromBytes C b).aes.length = 16 ∧ (keyFromBytes C b).hmac.length = 16 := by
   simp [keyFromBytes, h]
 
+/-- **configured keys win**: after `SetSessionTicketKeys(bs)` — whatever happened before (a user-set
+legacy `SessionTicketKey`, earlier uses that installed its derived key) and however often the keys
+are used afterwards — the Config seals and opens with exactly `bs`' derived keys. In particular the
+legacy key is no longer configured, so by `rotated_key_rejected` its tickets are rejected. -/
+theorem set_keys_override (C : Crypto) (c : KeyCfg) (before : List KOp) (bs : List Bytes) (n : Nat)
+    (hbs : bs ≠ []) :
+    ((((List.replicate n KOp.use).foldl (KeyCfg.step C)
+        ((before.foldl (KeyCfg.step C) c).set C bs))).current C).2 = some (bs.map (keyFromBytes C)) := by
+  have hne : ((bs.map (keyFromBytes C)).isEmpty) = false := by
+    cases bs with
+    | nil => exact absurd rfl hbs
+    | cons b r => rfl
+  have hfix : ∀ d : KeyCfg, d.installed = bs.map (keyFromBytes C) → KeyCfg.step C d KOp.use = d := by
+    intro d hd
+    simp [KeyCfg.step, KeyCfg.current, hd, hne]
+  have huse : ∀ (m : Nat) (d : KeyCfg), d.installed = bs.map (keyFromBytes C) →
+      (List.replicate m KOp.use).foldl (KeyCfg.step C) d = d := by
+    intro m
+    induction m with
+    | zero => intro d _; rfl
+    | succ m ih =>
+      intro d hd
+      rw [List.replicate_succ, List.foldl_cons, hfix d hd]
+      exact ih d hd
+  rw [huse n _ rfl]
+  simp [KeyCfg.current, KeyCfg.set, hne]
+
+/-- a Config with only a user-set legacy key uses exactly that key's derivation. -/
+theorem legacy_only (C : Crypto) (b : Bytes) :
+    ((KeyCfg.current C ⟨some b, []⟩).2) = some [publicKeyFromBytes C b] := rfl
+
 /-- **forged client sessions carry what was supplied** … -/
 theorem forged_state_verbatim (ticket : Bytes) (vers suite : Nat) (secret : Bytes) :
     let s := makeClientSession ticket vers suite secret
